@@ -76,3 +76,76 @@ Definition is_solvable (e : expr) : bool :=
   | EBool _ | ECast _ _ | EField _ | EFloat _ | EInt _ | ENull => false
   | _ => true
   end.
+
+(* ---- decidable equality on expressions (used by the classifiers of Model/Known.v) ---- *)
+Fixpoint list_eqb {A} (eqb : A -> A -> bool) (a b : list A) : bool :=
+  match a, b with
+  | [], [] => true
+  | x :: a', y :: b' => eqb x y && list_eqb eqb a' b'
+  | _, _ => false
+  end.
+
+Definition mtype_eqb (a b : mtype) : bool :=
+  match a, b with
+  | MTContains x, MTContains y | MTEndsWith x, MTEndsWith y | MTExact x, MTExact y
+  | MTStartsWith x, MTStartsWith y => str_eqb x y
+  | _, _ => false
+  end.
+
+Definition search_eqb (a b : search) : bool :=
+  match a, b with
+  | SAho c1 i1, SAho c2 i2 => list_eqb mtype_eqb c1 c2 && Bool.eqb i1 i2
+  | SAny, SAny => true
+  | SContains x, SContains y | SEndsWith x, SEndsWith y | SExact x, SExact y
+  | SStartsWith x, SStartsWith y => str_eqb x y
+  | SRegex p1 i1, SRegex p2 i2 => str_eqb p1 p2 && Bool.eqb i1 i2
+  | SRegexSet p1 i1, SRegexSet p2 i2 => list_eqb str_eqb p1 p2 && Bool.eqb i1 i2
+  | _, _ => false
+  end.
+
+Definition matchk_eqb (a b : matchk) : bool :=
+  match a, b with
+  | MAll, MAll => true
+  | MOf x, MOf y => (x =? y)%Z
+  | _, _ => false
+  end.
+
+Fixpoint expr_eqb (a b : expr) {struct a} : bool :=
+  match a, b with
+  | EGroup o1 l1, EGroup o2 l2 =>
+      boolsym_eqb o1 o2 &&
+      (fix go (l1 l2 : list expr) {struct l1} : bool :=
+         match l1, l2 with
+         | [], [] => true
+         | x :: l1', y :: l2' => expr_eqb x y && go l1' l2'
+         | _, _ => false
+         end) l1 l2
+  | EBexp l1 o1 r1, EBexp l2 o2 r2 => expr_eqb l1 l2 && boolsym_eqb o1 o2 && expr_eqb r1 r2
+  | EBool x, EBool y => Bool.eqb x y
+  | ECast f1 m1, ECast f2 m2 => str_eqb f1 f2 && modsym_eqb m1 m2
+  | EField x, EField y => str_eqb x y
+  | EFloat x, EFloat y => (x =? y)%Z
+  | EIdent x, EIdent y => str_eqb x y
+  | EInt x, EInt y => (x =? y)%Z
+  | EMatch k1 e1, EMatch k2 e2 => matchk_eqb k1 k2 && expr_eqb e1 e2
+  | EMatrix c1 r1, EMatrix c2 r2 =>
+      list_eqb str_eqb c1 c2 &&
+      (fix rows (r1 r2 : list (list (option expr))) {struct r1} : bool :=
+         match r1, r2 with
+         | [], [] => true
+         | x :: r1', y :: r2' =>
+             (fix cells (x y : list (option expr)) {struct x} : bool :=
+                match x, y with
+                | [], [] => true
+                | None :: x', None :: y' => cells x' y'
+                | Some p :: x', Some q :: y' => expr_eqb p q && cells x' y'
+                | _, _ => false
+                end) x y && rows r1' r2'
+         | _, _ => false
+         end) r1 r2
+  | ENegate x, ENegate y => expr_eqb x y
+  | ENested f1 e1, ENested f2 e2 => str_eqb f1 f2 && expr_eqb e1 e2
+  | ENull, ENull => true
+  | ESearch s1 f1 c1, ESearch s2 f2 c2 => search_eqb s1 s2 && str_eqb f1 f2 && Bool.eqb c1 c2
+  | _, _ => false
+  end.
